@@ -56,6 +56,14 @@ def run_c15(out, tier):
                         specs.append(dict(s, audio=audio))
                 else:
                     specs.append(s)
+    # the same destination spelled differently: a relative path to it, and a "~" path whose expansion is the
+    # existing file (whichever file the library takes "~/new.scx" to name, the existing one is not replaced
+    # without opt-in)
+    for op in ("export", "extract_chk", "extract_file", "save", "import"):
+        for spell in ("relative", "tilde"):
+            for flag in ("default", "false"):
+                s = {"op": op, "base": base, "dest": "existing", "flag": flag, "fault": None, "spell": spell}
+                specs.append(dict(s, audio=audio_files()[:1]) if op == "import" else s)
     for r in pmap(specs):
         spec = r["spec"]
         out.case("c15:" + spec["op"], json.dumps(desc(spec), sort_keys=True).encode(), sample={"spec": desc(spec), "exception": r.get("exception")})
@@ -67,7 +75,10 @@ def run_c15(out, tier):
         optin = spec["flag"] == "true"
         b, a = r["before"], r["after"]
         d = {"spec": desc(spec), "exception": r["exception"], "before": b, "after": a}
-        if existed and not optin:
+        if spec.get("spell") == "tilde":
+            if a != b:
+                out.violations.append(dict(d, oracle="an existing file is not replaced unless overwriting was requested, however the destination is spelled"))
+        elif existed and not optin:
             if r["exception"] != "FileExistsError":
                 out.violations.append(dict(d, oracle="destination exists and overwriting was not requested: the call must refuse with FileExistsError"))
             elif a != b:
@@ -169,6 +180,15 @@ def run_c17(out, tier, rng):
             if not r["reload_reencodes_equal"]:
                 out.violations.append({"oracle": "reading the saved archive returns a map equal to the saved one", "spec": desc(spec)})
         sets = [audio_files()[:1], audio_files()[1:], audio_files()]
+        # a file whose name has upper-case letters and a space: stored and listed under exactly that spelling
+        import shutil
+        import tempfile
+
+        mixed_dir = tempfile.mkdtemp(prefix="vfo_mixed_")
+        src0 = audio_files()[0]
+        mixed = os.path.join(mixed_dir, "Bandit One" + os.path.splitext(src0)[1])
+        shutil.copyfile(src0, mixed)
+        sets.append([mixed])
         for audio in sets:
             r = child({"op": "import", "base": base, "dest": "absent", "flag": "default", "fault": None, "audio": audio, "inspect": True})
             spec = r["spec"]
@@ -191,6 +211,7 @@ def run_c17(out, tier, rng):
                     continue
                 if m != "staredit\\scenario.chk" and m not in ["staredit\\wav\\" + a for a in r["audio_sha"]] and mn.get(m) != h:
                     out.violations.append({"oracle": "every other archive member is preserved by the import", "spec": desc(spec), "member": m})
+        shutil.rmtree(mixed_dir, ignore_errors=True)
     # multi-step histories on one long-lived IO object
     for base in archives()[:1] if tier == "quick" else archives():
         r = child({"op": "scenario_stale_duration", "base": base, "dest": "absent", "flag": "default", "fault": None})
